@@ -10,7 +10,7 @@ from ..model import AnalysisError, unparse
 from ..report import RuleResult
 from ..roles import bound_from, calls, returned_names
 from ..tables import WriterTables
-from ._c01_paths import Paths, Sym, attr_name, conjuncts, neg, default_of, kind_of, kw, make_call_eval, never_none_fields, record_fields, show_set, sources
+from ._c01_paths import Paths, Sym, attr_name, conjuncts, expand_generators, neg, default_of, kind_of, kw, make_call_eval, never_none_fields, record_fields, show_set, sources
 from .c06 import rule_own as _c06_own
 
 
@@ -544,7 +544,8 @@ def rule_flow(ctx) -> RuleResult:
     def anchor(cls, name):
         if name not in cls.methods:
             raise AnalysisError(f"anchor {cls.name}.{name} not found")
-        return cls.methods[name], ctx.view(cls.methods[name])
+        # (a generator helper feeding a loop is expanded into that loop: the loop body and the generator body are one loop)
+        return cls.methods[name], expand_generators(ctx, ctx.view(cls.methods[name]))
 
     # Every site below is found by what it does (the call it makes, the field it stores) in the normalised body (private helpers
     # expanded, hoisted tables substituted); locals are named by role; conditions are compared as sets of necessary
@@ -588,7 +589,7 @@ def rule_flow(ctx) -> RuleResult:
                 continue
             head, nxt, body = P.loop_nodes(lp)
             nec = P.necessary([P.g.entry], tg)
-            ok = nec == want and P.must([P.g.entry], [head], want) and P.must(body, tg, want, fail=[nxt])
+            ok = nec == want and P.must([P.g.entry], [head], want) and P.must(body, tg, want, fail=[nxt]) and P.runs_through(lp)
     chk(ok, f"H5Writer.save_entity saves every child exactly under {show_set(nec)}", "H5Writer", "save_entity", "children are not all saved", hs0.where,
         "children of a saved entity (close() saves the root with add_children) are skipped: they never reach the file")
 
@@ -610,7 +611,7 @@ def rule_flow(ctx) -> RuleResult:
             continue
         head, nxt, body = Q.loop_nodes(lp)
         want = Q.conj("getattr(R_ent, R_attr, None) is not None")
-        ok2 = Q.necessary(body, tg) == want and Q.must(body, tg, want, fail=[nxt]) and Q.must([Q.g.entry], [head])
+        ok2 = Q.necessary(body, tg) == want and Q.must(body, tg, want, fail=[nxt]) and Q.must([Q.g.entry], [head]) and Q.runs_through(lp)
     chk(ok and ok2, "write_properties: 'attributes' then every KEY_MAP attribute that is not None", "H5Writer", "write_properties", "not every set attribute is written at creation", wp0.where,
         "a new entity is stored without some of its datasets / attributes")
 
@@ -707,13 +708,19 @@ def rule_flow(ctx) -> RuleResult:
     key, vals, look = _pairs_loop(P, loop)
     roles = {ent_p: "R_ent", **{v: "R_type" for v in vals}, key: "R_uid"}
     look = _rename_word(look, key, "R_uid")
-    roles.update({nm: "R_rec" for nm in bound_from(loop, lambda e: calls(e, "load_entity", "get_entity"))})
+    recs = set(bound_from(loop, lambda e: calls(e, "load_entity", "get_entity")))
+    for _ in range(3):  # plain aliases of the recovered entity inside the loop
+        recs |= set(bound_from(loop, lambda e: isinstance(e, ast.Name) and e.id in recs))
+    roles.update({nm: "R_rec" for nm in recs})
     P = Paths(fc.node, roles)
     head, nxt, body = P.loop_nodes(loop)
     loads = [c for c in ast.walk(loop) if isinstance(c, ast.Call) and P.text(c.func) == "self.load_entity"]
     ok = bool(loads) and all(len(c.args) > 1 and P.text(c.args[0]) == "R_uid" and P.text(c.args[1]) in ("R_type", look) and kw(c, "parent", 2) is not None and P.text(kw(c, "parent", 2)) == "R_ent" for c in loads)
     chk(ok, "fetch_children: load_entity(<uid>, <child type>, parent=<entity>) for every listed child", "Workspace", "fetch_children", "children are not loaded with their parent", fc0.where,
         "children listed in the file are not re-created under their parent")
+    chk(P.runs_through(loop), "fetch_children: the loop over the listed children has no early exit", "Workspace", "fetch_children",
+        "the loop over the listed children can stop before the last child", fc0.where,
+        "one child that is skipped (not loadable, a property group) ends the loop: the siblings listed after it and their sub-trees are not loaded")
     usable = P.conj("R_rec is not None and not isinstance(R_rec, PropertyGroup)")
     want = P.conj(f"{rec_p} and isinstance(R_rec, (Group, ObjectBase))")
     tg = P.call_nodes(lambda c: P.text(c.func) == "self.fetch_children" and c.args and P.text(c.args[0]) == "R_rec" and kw(c, rec_p, 1) is not None and _is_true(P.X(kw(c, rec_p, 1))), within=loop)
@@ -758,7 +765,7 @@ def rule_flow(ctx) -> RuleResult:
         some = P.conj("len(R_attrs[2]) > 0")
         want = P.conj("isinstance(R_ent, ObjectBase)")
         nec = P.necessary(P.after(made), tg)
-        ok = nec - some == want and P.must(P.after(made), [head], want | some) and P.must(body, tg, want | some, fail=[nxt])
+        ok = nec - some == want and P.must(P.after(made), [head], want | some) and P.must(body, tg, want | some, fail=[nxt]) and P.runs_through(lp)
     chk(ok, f"load_entity re-creates every stored property group of an object (under {show_set(nec)})", "Workspace", "load_entity", "stored property groups are not re-created", le0.where,
         "property groups are lost on re-open")
     # the table entity type label -> base class: what the class argument of create_entity is looked up in
@@ -787,7 +794,7 @@ def rule_flow(ctx) -> RuleResult:
             st = Q.stmt_nodes(lambda s: s is asg)
             if Q.reaches(body, st, Q.conj("isinstance(R_list, h5py.Group)")):
                 listed.add(name)
-        ok = listed == {"Data", "Groups", "Objects"}
+        ok = listed == {"Data", "Groups", "Objects"} and Paths(rc.node, roles).runs_through(loop)
         # a literal skip table, when there is one, names exactly the three non-child groups
         Q = Paths(rc.node, roles)
         for x in ast.walk(loop):
@@ -899,4 +906,91 @@ def _present(P, dels) -> frozenset:
     return frozenset(x for x in out if x is not False)
 
 
-RULES = [rule_schema, rule_fetchkey, rule_lazy, rule_pgw, rule_own, rule_flow, rule_unlink]
+def rule_stale(ctx) -> RuleResult:
+    res = RuleResult(
+        "C01.STALE",
+        "C01",
+        "a node that already exists under the uid of an entity / type is adopted as it is only for an object that is already on file: "
+        "for one that is not (a new object taking the uid of a removed one whose node was not swept yet) every normal path of "
+        "H5Writer.write_entity / write_entity_type writes the object (creates its node or rewrites its attributes)",
+        floor=6,
+    )
+    p = ctx.p
+    W = p.cls("H5Writer")
+    cases = (("write_entity", (("Data", "data.data"), ("ObjectBase", None), ("Group", None))),
+             ("write_entity_type", (("DataType", "data.data_type"), ("ObjectType", None), ("GroupType", None))))
+    for name, kinds in cases:
+        fn0 = W.methods.get(name)
+        if fn0 is None or len(fn0.params) < 3:
+            raise AnalysisError(f"anchor H5Writer.{name}(file, entity, ...) not found")
+        fn = expand_generators(ctx, ctx.view(fn0))
+        bad = []
+        for kname, hint in kinds:
+            K = p.cls(kname, hint)
+            P = Paths(fn.node, {fn0.params[2]: "R_x"}, kinds={"R_x": kind_of(p, K)})
+            writes = P.call_nodes(lambda c: attr_name(c) == "create_group" and c.args and P.text(c.args[0]) in ("as_str_if_uuid(R_x.uid)", "str(R_x.uid)")
+                                  or attr_name(c) == "write_attributes" and len(c.args) > 1 and P.text(c.args[1]) == "R_x")
+            if not writes:
+                raise AnalysisError(f"H5Writer.{name}: the creation of the node (create_group(<uid>)) not found")
+            ok = P.must([P.g.entry], writes, P.conj("not R_x.on_file"))
+            res.inst(f"H5Writer.{name}({kname} not on file): every normal path writes the object", nontrivial=True, ok=ok)
+            if not ok:
+                bad.append(kname)
+        if bad:
+            res.find("H5Writer", name, "an existing node is adopted for an object that is not on file", fn0.where,
+                     f"a new {' / '.join(bad)} that takes the uid of a removed one (its node still in the file: detached or deleted, garbage collected, not swept yet) "
+                     "is marked on_file without being written: the live object shows the new content, the re-opened file the removed one's")
+    return res
+
+
+def _literal_texts(f) -> set:
+    if f is True or f is False:
+        return set()
+    if f[0] == "lit":
+        return {f[1]}
+    return set().union(*[_literal_texts(x) for x in f[1]]) if f[1] else set()
+
+
+def rule_ident(ctx) -> RuleResult:
+    res = RuleResult(
+        "C01.IDENT",
+        "C01",
+        "registry and file are keyed by the identifier: the setter of the attribute stored as 'ID' re-binds the identifier field only on "
+        "paths guarded by the current identifier / the stored state (a refusal for a registered object, the first assignment in the "
+        "constructor), or hands the change to the workspace afterwards",
+        floor=2,
+    )
+    p = ctx.p
+    for cname in ("Entity", "PropertyGroup"):
+        K = p.cls(cname)
+        attr = (p.attribute_map(K) or {}).get("ID")
+        m = K.lookup(attr) if isinstance(attr, str) else None
+        if m is None or m[1] != "prop" or m[2].getter is None:
+            raise AnalysisError(f"{cname}: the property stored as 'ID' not found")
+        pr = m[2]
+        if pr.setter is None:
+            res.inst(f"{cname}.{attr}: read-only")
+            continue
+        # the identifier field = what the getter returns
+        fields = {x.attr for r in ast.walk(pr.getter.node) if isinstance(r, ast.Return) and r.value is not None for x in ast.walk(r.value)
+                  if isinstance(x, ast.Attribute) and isinstance(x.value, ast.Name) and x.value.id == "self"}
+        sv = expand_generators(ctx, ctx.view(pr.setter))
+        P = Paths(sv.node)
+        stores = P.stmt_nodes(lambda s: any(_self_store(s, f) for f in fields))
+        if not stores:
+            res.inst(f"{cname}.{attr}: setter does not re-bind {sorted(fields)}")
+            continue
+        nec = P.necessary([P.g.entry], stores)
+        texts = set().union(*[_literal_texts(f) for f in nec]) if nec else set()
+        guarded = any(any(f"self.{fld}" in t for fld in fields) or "on_file" in t for t in texts)
+        rekeyed = P.must(P.after(stores), P.call_nodes(lambda c: isinstance(c.func, ast.Attribute) and "workspace" in P.text(c.func.value) and any(P.text(a) == "self" for a in c.args)))
+        ok = guarded or rekeyed
+        res.inst(f"{cname}.{attr} setter: re-binding of {sorted(fields)} guarded by {sorted(texts)}", nontrivial=True, ok=ok)
+        if not ok:
+            res.find(cname, attr, "the identifier of a registered object can be re-assigned (no guard, no re-keying)", pr.setter.where,
+                     f"{cname}.{attr} = <new> on a stored object only changes the attribute: the registry and the file stay keyed by the old identifier, later writes are "
+                     "dropped or go to a second node, and the re-opened file shows the old object and the re-identified one")
+    return res
+
+
+RULES = [rule_schema, rule_fetchkey, rule_lazy, rule_pgw, rule_own, rule_flow, rule_unlink, rule_stale, rule_ident]
